@@ -194,8 +194,7 @@ Print Assumptions C17_lex_end_tag_partial.
    Gap (1) closed for the remaining items and for whole documents (XmlNs/XLexMisc.v, XLexDoc.v,
    XUnsrc.v, XLexTree.v, XLexHyps.v, XLexRound.v; eighteen more arm bodies, XLexMisc.xml_misc_bodies,
    discharged on the regenerated table in Inst/InstXmlLex.v).
-   Side conditions, on the text of the node (all of them hold for a node this tokenizer produced,
-   with the one exception listed below - PI data starting with white space):
+   Side conditions, on the text of the node (all of them hold for a node this tokenizer produced):
    - every character of a comment, of a PI target / data and of a doctype name is neither U+000D
      nor U+0000 ([pre_ok]; the input preprocessing never lets them through); a reported character
      (control character, noncharacter) is allowed and costs one parse-error token;
@@ -206,11 +205,12 @@ Print Assumptions C17_lex_end_tag_partial.
      ends early; such a comment cannot come from parsing - it is a limitation of the serializer
      for trees built by hand (the Rust code has no check either);
    - PI ([pi_target_ok], [pi_data_ok]): the target is not empty, has no white space and no '?'
-     after its first character; the data has no '?' and does not start with white space.
-     Outside: '?>' inside the data ends the PI early (serializer limitation for hand-built trees);
-     data with leading white space comes back without it - and CAN come from parsing:
-     <?t? x?> is read as target t, data " x" (the quirk of the PiAfter state), written as
-     <?t  x?>, read back as data "x";
+     after its first character; the data does not start with white space and does not contain
+     '?>' ([no_qgt]) - a '?' anywhere else is data (the PiAfter state as of /repo cff04a2: only
+     '?>' ends a processing instruction), the end of the data included: <?t a??> is data "a?".
+     Outside: '?>' inside the data ends the PI early, data with leading white space comes back
+     without it - neither can come from parsing (limitations of the serializer for hand-built
+     trees; before cff04a2 <?t? x?> was read as data " x", now as "? x", which is covered);
    - doctype ([doctype_name_ok]): the name has no white space, no '>' and no ASCII upper-case
      letter (the tokenizer lower-cases doctype names: a hand-built doctype R comes back as r).
      The empty name (from <!DOCTYPE>) is written <!DOCTYPE > and read back, with a parse error,
@@ -317,8 +317,7 @@ Print Assumptions C17_tree_builder_ignores_tag_source.
    the chunked queue and the default mode to it up to parse errors and the merging of character
    tokens, which the builder does not see; (c) "t = tree (parse x)" is replaced by the two decidable
    hypotheses: the check evaluates both on every tree the Rust parser produced and asserts
-   [lex_hyps] whenever [rt_hyps] holds, except for trees with a PI data starting with white
-   space (see above: the known finding).
+   [lex_hyps] whenever [rt_hyps] holds, without exception.
    Doctype public / system identifiers are outside the serializer API ([strip_ids]). *)
 Theorem C17_roundtrip_through_tokenizer_partial :
   forall simd c1 sk, Interp.sk_resp sk = [] -> forall kids bom,
